@@ -1105,8 +1105,8 @@ def run(ctx):
         c = cases[i]
         if c.fails:
             continue
-        e = repaired_cell(c)
-        if e is not None and e.get("id") not in ctx.known_hit:
+        e = repaired_cell(c, ctx.known_hit)
+        if e is not None:
             # the model transcribes the pinned (defective) code of a LISTED finding; the implementation now does what the
             # property asks in that cell (the direct predicates hold): a repair, not an alarm
             repaired[e["id"]] = repaired.get(e["id"], 0) + 1
@@ -1120,7 +1120,7 @@ def run(ctx):
                        "correspondence": "coq/C14/Check.v agree (Model.v vs the real classes)"}, no_input=True)
     for i in badconv[:3]:
         c = cases[i]
-        if c.fails or ((repaired_cell(c) or {}).get("id", "") not in ctx.known_hit and repaired_cell(c) is not None):
+        if c.fails or repaired_cell(c, ctx.known_hit) is not None:
             continue            # a failing input: already reported through the direct predicates ; or a repaired finding
         ctx.violation({"kind": "specification-implementation-disagreement", "case": c.spec(), "input_term": lit(c.oin),
                        "observed_term": (lit(c.obs) if isinstance(c.obs, tuple) else str(c.obs)),
@@ -1170,6 +1170,7 @@ def run(ctx):
         "time_impl_s": round(t_impl, 1), "time_coq_shards_s": round(t_coq, 1),
         "samples": samples,
     })
+    torch.set_default_dtype(torch.float32)
     ctx.assumptions = [
         "CPU only: device conversions are exercised with torch.device('cpu'); cuda()/multi-device Cat are not covered",
         "dtypes float32/float64/int64/bool (half precision is outside the property's quantifier)",
@@ -1178,13 +1179,13 @@ def run(ctx):
         "through the direct dense comparison"]
 
 
-def repaired_cell(c):
-    """the listed finding (if any) whose cell this PASSING case belongs to: some node of the operator has the finding's
-    class and the query family is the finding's (when it names one).  Used only for findings that did NOT reproduce in
-    this run (a repair): there the model still transcribes the pinned, defective code."""
+def repaired_cell(c, reproduced=()):
+    """a listed finding that did NOT reproduce in this run (someone repaired it) and whose cell this PASSING case belongs
+    to: some node of the operator has the finding's class and the query family is the finding's (when it names one).
+    There the model still transcribes the pinned, defective code; the implementation now satisfies the property."""
     classes = {root_class(x) for x in all_subs(c.e)}
     for e in common.load_known():
-        if e.get("property") != PROP or e.get("status") != "known":
+        if e.get("property") != PROP or e.get("status") != "known" or e.get("id") in reproduced:
             continue
         k = e.get("key", {})
         if k.get("class") in classes and ("op" not in k or k["op"] == family(c.q)):
